@@ -26,6 +26,7 @@
 EXTENDS Integers, Sequences, FiniteSets, TLC
 
 CONSTANTS PinnedParent, PinnedFind, PinnedProducer,
+          PinnedNoCycleGuard,  \* import_partial_units inlines a unit into itself (before fix 6)
           PinnedPartialOnly    \* fetch_parent_die unwinds the import chain only at DW_TAG_partial_unit roots (before fix 5)
 
 -----------------------------------------------------------------------------
@@ -63,17 +64,23 @@ ImportTarget(F, d) ==
     ELSE LET as == SelectSeq(Die(F, d).attrs, LAMBDA a: a.n = "import") IN
          IF Len(as) = 0 THEN 0 ELSE as[1].r
 
+\* A unit is never inlined into itself: an import whose target is the unit the importing DIE lives in, or a unit
+\* that is being inlined further up the chain (malformed DWARF), stays a plain DIE.
+InlineTarget(F, k, ch) ==
+    LET t == ImportTarget(F, k) IN
+    IF t # 0 /\ (t = RawRoot(F, k) \/ \E i \in 1..Len(ch) : RawRoot(F, ch[i]) = t) THEN 0 ELSE t
+
 RECURSIVE CookedKids(_, _)
 CookedKids(F, v) ==
     Concat([i \in 1..Len(Die(F, v.d).kids) |->
-              LET k == Die(F, v.d).kids[i] t == ImportTarget(F, k) IN
+              LET k == Die(F, v.d).kids[i] t == InlineTarget(F, k, v.ch) IN
               IF t # 0 THEN CookedKids(F, CD(t, <<k>> \o v.ch)) ELSE <<CD(k, v.ch)>>])
 
 \* all DIEs below v (v excluded) in cooked pre-order
 RECURSIVE CookedBelow(_, _)
 CookedBelow(F, v) ==
     Concat([i \in 1..Len(Die(F, v.d).kids) |->
-              LET k == Die(F, v.d).kids[i] t == ImportTarget(F, k) IN
+              LET k == Die(F, v.d).kids[i] t == InlineTarget(F, k, v.ch) IN
               IF t # 0 THEN CookedBelow(F, CD(t, <<k>> \o v.ch))
               ELSE <<CD(k, v.ch)>> \o CookedBelow(F, CD(k, v.ch))])
 
@@ -173,7 +180,7 @@ Produce(F, stack, chain, alldies, fuel) ==
          IF Len(top) = 0
          THEN \* drop_finished_imports
               Produce(F, SubSeq(stack, 1, Len(stack) - 1), IF Len(chain) > 0 THEN Tail(chain) ELSE chain, alldies, fuel - 1)
-         ELSE LET d == Head(top) t == ImportTarget(F, d) IN
+         ELSE LET d == Head(top) t == IF PinnedNoCycleGuard THEN ImportTarget(F, d) ELSE InlineTarget(F, d, chain) IN
               IF t # 0
               THEN \* import_partial_units: skip the DIE, push the unit's range without its root
                    Produce(F, Append([stack EXCEPT ![Len(stack)] = Tail(top)],
